@@ -122,3 +122,33 @@ Proof.
   - lia.
   - unfold move_front. simpl. lia.
 Qed.
+
+(* ---------- the re-adding loop of the strict set_depot ---------- *)
+(* a for_each loop whose body is (extensionally) "add this arc by the names of its endpoints through an
+   add_arc that agrees with add_arc_gen strict" is the hand model's readd_arcs, on a graph in which every
+   listed arc names two nodes (then no iteration raises) *)
+Lemma for_each_readd strict (body : graph -> arc -> M unit) :
+  (forall s a, length (names s) = length (nodes s) ->
+     body s a = lift_unit s (match add_arc_gen strict s (aorig a) (adest a) (att a) (acost a) with
+                             | Ok (g', _) => Ok g' | Err e => Err e end)) ->
+  forall (old : dict arc) g,
+    length (names g) = length (nodes g) ->
+    (forall kv, In kv old -> In (aorig (snd kv)) (names g) /\ In (adest (snd kv)) (names g)) ->
+    for_each body (dict_values old) g = lift_unit g (readd_arcs strict g old).
+Proof.
+  intros Hb. induction old as [|kv old IH]; intros g Hl Hn; [reflexivity|].
+  unfold dict_values in *. cbn [map for_each]. rewrite (Hb g (snd kv) Hl).
+  destruct (Hn kv (or_introl eq_refl)) as [Ho Hd].
+  unfold readd_arcs. cbn [fold_left].
+  destruct (add_arc_gen strict g (aorig (snd kv)) (adest (snd kv)) (att (snd kv)) (acost (snd kv)))
+    as [[g1 b]|e] eqn:Ea.
+  - cbn [lift_unit call]. destruct (add_arc_gen_frame _ _ _ _ _ _ _ _ Ea) as [En Ed].
+    assert (Hn1 : forall kv', In kv' old -> In (aorig (snd kv')) (names g1) /\ In (adest (snd kv')) (names g1)).
+    { intros kv' Hin. rewrite En. apply Hn. right; exact Hin. }
+    rewrite IH; [|rewrite En, Ed; exact Hl | exact Hn1].
+    fold (readd_arcs strict g1 old). destruct (readd_arcs_ok strict g1 old Hn1) as [g2 E2].
+    rewrite E2. reflexivity.
+  - exfalso. unfold add_arc_gen in Ea.
+    apply index_of_In in Ho, Hd. destruct Ho as [i Ei], Hd as [j Ej]. rewrite Ei, Ej in Ea.
+    match type of Ea with context [if ?p then Ok _ else Ok _] => destruct p end; discriminate.
+Qed.
